@@ -62,7 +62,14 @@ func simDial(ctx context.Context, d *Dialer, endpoint string) (*Conn, error) {
 	if err != nil {
 		return nil, err
 	}
-	nc, err := simNet.Load().n.Dial(ctx, hp)
+	dctx := ctx
+	if d.Dialer != nil && d.Dialer.Timeout > 0 {
+		// net.Dialer.Timeout bounds the connect only, not the handshake
+		var cancel context.CancelFunc
+		dctx, cancel = context.WithTimeout(ctx, d.Dialer.Timeout)
+		defer cancel()
+	}
+	nc, err := simNet.Load().n.Dial(dctx, hp)
 	if err != nil {
 		return nil, err
 	}
